@@ -115,7 +115,7 @@ def body(case, acc):
         want = scen.expected_rdflib(case)
         gs = {T.norm_stmt(s) for s in res.statements}
         if gs != want:
-            return Violation("C03:decodes-differently", f"R decodes a different set: missing {sorted(want - gs)[:2]!r} "
+            return Violation("C03:decodes-differently", f"R decodes a different set: missing {sorted(want - gs, key=repr)[:2]!r} "
                              f"extra {sorted(gs - want, key=repr)[:2]!r}", case)
     if res.prefixes:
         return Violation("C03:unexpected-namespace-row", "namespace rows although the option is off", case)
